@@ -555,12 +555,14 @@ mod n {
                 let mut per_orient: HashMap<Orientation, (f64, f64, f64, f64, f64)> = HashMap::new(); // gains, a, ff*a, g*a, fsh*a
                 let nwin: u128 = if c.tier_thorough { 3 } else { 2 };
                 for i in 0..nwin {
-                    let o = if i < 2 { c.of(&[Orientation::S, Orientation::NE, Orientation::HZ]) } else { c.of(&[Orientation::W, Orientation::SE, Orientation::N, Orientation::E, Orientation::SW, Orientation::NW]) };
-                    let b = c.of(&[BoundaryType::EXTERIOR, BoundaryType::GROUND, BoundaryType::INTERIOR]);
-                    let tenv = c.flag();
-                    let m = c.of(&[1.0f32, 2.0]);
-                    let fsh = c.of(&[None, Some(0.8f32)]);
-                    let fov = c.of(&[None, Some(0.6f32), Some(0.95)]);
+                    // (the third window of the thorough tier ranges over the six remaining orientation classes only)
+                    let third = i >= 2;
+                    let o = if !third { c.of(&[Orientation::S, Orientation::NE, Orientation::HZ]) } else { c.of(&[Orientation::W, Orientation::SE, Orientation::N, Orientation::E, Orientation::SW, Orientation::NW]) };
+                    let b = if third { BoundaryType::EXTERIOR } else { c.of(&[BoundaryType::EXTERIOR, BoundaryType::GROUND, BoundaryType::INTERIOR]) };
+                    let tenv = if third { true } else { c.flag() };
+                    let m = if third { 1.5 } else { c.of(&[1.0f32, 2.0]) };
+                    let fsh = if third { Some(0.7) } else { c.of(&[None, Some(0.8f32)]) };
+                    let fov = if third { None } else { c.of(&[None, Some(0.6f32), Some(0.95)]) };
                     let has_cons = c.flag();
                     let area = 1.5f32 + i as f32;
                     let win = WinProps {
